@@ -40,6 +40,9 @@ Matchers == {
   Mt("socks4", [commands |-> <<"CONNECT">>, networks |-> <<"10.0.0.0/24">>, ports |-> <<80, 443>>]),
   Mt("socks5", [auth_methods |-> <<0, 2>>]),
   Mt("dns", [allow |-> << [name |-> "example.com.", type |-> "A"] >>, deny |-> << [class |-> "CH"] >>, default_deny |-> TRUE]),
+  \* regexp rules: allow_regexp / deny_regexp <name_pattern> [<type_pattern> [<class_pattern>]]
+  Mt("dns", [allow |-> << [name_regexp |-> "^(a|b)[.]example[.]com[.]$", type_regexp |-> "^(A|AAAA)$", class_regexp |-> "^IN$"] >>,
+             deny |-> << [type_regexp |-> "^(MX|NS)$", class_regexp |-> "^(CH|HS)$"], [name_regexp |-> "^internal[.]"] >>, prefer_allow |-> TRUE]),
   Mt("clock", [after |-> "08:00:00", before |-> "17:30:00", timezone |-> "UTC"]),
   Mt("wireguard", [zero |-> 256]),
   Mt("rdp", [cookie_hash |-> "user"]),
@@ -71,7 +74,8 @@ ProxyPassive(order) ==
    load_balancing |-> [selection |-> [policy |-> "random_choose", choose |-> 2]], _order |-> order]
 PP == [handler |-> "proxy_protocol", allow |-> <<"10.0.0.0/8", "127.0.0.1/32">>, timeout |-> 2 * S]
 TLSH == [handler |-> "tls"]
-Throttle == [handler |-> "throttle", read_bytes_per_second |-> 1000, read_burst_size |-> 500, total_read_bytes_per_second |-> 5000,
+\* rates are floating-point numbers: 16777217 = 2^24 + 1 has no single-precision representation
+Throttle == [handler |-> "throttle", read_bytes_per_second |-> 1000, read_burst_size |-> 500, total_read_bytes_per_second |-> 16777217,
              total_read_burst_size |-> 2500, latency |-> S]
 Socks5 == [handler |-> "socks5", commands |-> <<"CONNECT", "BIND">>, credentials |-> [alice |-> "pw"], bind_ip |-> "10.0.0.1"]
 Tee == [handler |-> "tee", branch |-> << Echo >>]
